@@ -350,7 +350,9 @@ func sampleScalar(t reflect.Type, k int) reflect.Value {
 	case t == timeType:
 		v.Set(reflect.ValueOf(sampleTime.Add(time.Duration(k) * time.Hour)))
 	case t == durType:
-		v.SetInt(int64(time.Duration(3600+k) * time.Second))
+		// intervals are unsigned 32-bit seconds: the boundaries of the signed range are ordinary values
+		secs := []int64{int64(3600 + k), 1 << 31, 1<<32 - 1, 1<<31 - 1}[k%4]
+		v.SetInt(secs * int64(time.Second))
 	case t == bigType:
 		v.Set(reflect.ValueOf(*sampleBig(k)))
 	case t.Kind() == reflect.String:
